@@ -41,10 +41,15 @@ impl Module {
         impls: &[grammar::FunctionBlock],
         backends: &[grammar::Backend],
     ) -> anyhow::Result<Self> {
-        let impls = impls
-            .iter()
-            .map(|f| (path.join(f.name.as_str().into()), f.clone()))
-            .collect();
+        // Several impl blocks for the same type are merged in source order.
+        let mut impls_map: HashMap<ItemPath, grammar::FunctionBlock> = HashMap::new();
+        for block in impls {
+            impls_map
+                .entry(path.join(block.name.as_str().into()))
+                .and_modify(|existing| existing.functions.extend(block.functions.iter().cloned()))
+                .or_insert_with(|| block.clone());
+        }
+        let impls = impls_map;
 
         let mut backends_map: HashMap<String, Vec<Backend>> = HashMap::new();
         for backend in backends {
